@@ -20,11 +20,11 @@ type sBranch struct {
 	codec                 uint64
 }
 
-func (b *sBranch) mixBit() bool        { return b.codecByte&0x40 != 0 }
-func (b *sBranch) dPtrMax() uint64     { return b.dptr[b.arity] }
-func (b *sBranch) cOffMax() uint64     { return b.cBias + b.cptr[b.arity] }
-func (b *sBranch) cOff(i int) uint64   { return b.cBias + b.cptr[i] }
-func (b *sBranch) dOff(i int) uint64   { return b.dBias + b.dptr[i] }
+func (b *sBranch) mixBit() bool      { return b.codecByte&0x40 != 0 }
+func (b *sBranch) dPtrMax() uint64   { return b.dptr[b.arity] }
+func (b *sBranch) cOffMax() uint64   { return b.cBias + b.cptr[b.arity] }
+func (b *sBranch) cOff(i int) uint64 { return b.cBias + b.cptr[i] }
+func (b *sBranch) dOff(i int) uint64 { return b.dBias + b.dptr[i] }
 func u64le(b []byte) uint64 {
 	v := uint64(0)
 	for i := 7; i >= 0; i-- {
